@@ -34,6 +34,7 @@ INVARIANTS = (
     "AllDefined",
     "ShapeAlgebra",
     "SymmetricBlocks",
+    "DeclOrderIrrelevant",
     "Duality",
     "DoubleViaSingle",
     "OuterFactorises",
@@ -148,7 +149,29 @@ def phys_shape(e, m):
         return list(e["refshape"][:-2]) + [m.g, m.g]
     if k == "mixed":
         return [sum(prod(phys_shape(s, m)) for s in e["subs"])]
-    return [len(e["symmetry"]), len(e["symmetry"][0])] + phys_shape(e["subs"][0], m)
+    return block_shape(e) + phys_shape(e["subs"][0], m)
+
+
+def block_shape(e):
+    """Block shape spanned by the keys of the symmetry dictionary (1-based components)."""
+    D = e["symmetry"]
+    return [max(d["comp"][a] for d in D) for a in range(len(D[0]["comp"]))]
+
+
+def grid(bs):
+    """Block components (1-based) of a block shape in row-major order."""
+    out = [[]]
+    for n in bs:
+        out = [c + [i] for c in out for i in range(1, n + 1)]
+    return out
+
+
+def sub_at(e, comp):
+    """Dictionary lookup: the (1-based) sub-element declared for the block component."""
+    hits = [d["sub"] for d in e["symmetry"] if list(d["comp"]) == list(comp)]
+    if len(hits) != 1:
+        raise MachineryError(f"symmetry dictionary has {len(hits)} entries for {comp}")
+    return hits[0]
 
 
 def legal(e, m):
@@ -164,13 +187,15 @@ def legal(e, m):
         return False
     if k == "mixed":
         return True
-    sm = e["symmetry"]
-    n = len(sm)
+    D = e["symmetry"]
+    if not D or len(D[0]["comp"]) < 1 or any(len(d["comp"]) != len(D[0]["comp"]) or min(d["comp"]) < 1 for d in D):
+        return False
+    keys = [tuple(d["comp"]) for d in D]
     return (
-        n >= 1
-        and all(len(r) == n for r in sm)
+        len(set(keys)) == len(keys)
+        and set(keys) == {tuple(c) for c in grid(block_shape(e))}
         and all(s["refshape"] == subs[0]["refshape"] and phys_shape(s, m) == phys_shape(subs[0], m) for s in subs)
-        and {x for r in sm for x in r} == set(range(1, len(subs) + 1))
+        and {d["sub"] for d in D} == set(range(1, len(subs) + 1))
     )
 
 
@@ -182,7 +207,24 @@ def pieces(e):
     """Sub-element numbers (0-based) in physical order."""
     if e["kind"] == "mixed":
         return list(range(len(e["subs"])))
-    return [x - 1 for row in e["symmetry"] for x in row]
+    return [sub_at(e, c) - 1 for c in grid(block_shape(e))]
+
+
+def row_major(e):
+    """Is every symmetry dictionary of the tree written in row-major order of its keys?"""
+    if e["kind"] == "symmetric" and [list(d["comp"]) for d in e["symmetry"]] != grid(block_shape(e)):
+        return False
+    return all(row_major(s) for s in e["subs"])
+
+
+def as_written(e):
+    """The element whose symmetric blocks are numbered in the ORDER OF THE ENTRIES of the dictionary (what reading
+    .values() / .items() positionally gives) instead of by key; used to recognise that mistake and to show that the
+    enumerated universe can tell it from the declared push-forward."""
+    out = dict(e, subs=[as_written(s) for s in e["subs"]])
+    if e["kind"] == "symmetric":
+        out["symmetry"] = [{"comp": c, "sub": d["sub"]} for c, d in zip(grid(block_shape(e)), e["symmetry"])]
+    return out
 
 
 def push(e, m, r):
@@ -269,9 +311,9 @@ def build_element(e, cell):
     if k == "mixed":
         return MixedElement([build_element(s, cell) for s in e["subs"]])
     if k == "symmetric":
-        sm = e["symmetry"]
-        n = len(sm)
-        return SymmetricElement({(i, j): sm[i][j] - 1 for i in range(n) for j in range(n)}, [build_element(s, cell) for s in e["subs"]])
+        # the dictionary is written in the declared order of its entries (0-based keys and sub-element numbers)
+        symmetry = {tuple(i - 1 for i in d["comp"]): d["sub"] - 1 for d in e["symmetry"]}
+        return SymmetricElement(symmetry, [build_element(s, cell) for s in e["subs"]])
     pb, sob, fam = _leaf_table()[k]
     return FiniteElement(fam, cell, 1, tuple(e["refshape"]), pb, sob)
 
@@ -339,6 +381,8 @@ def _mesh(m):
 
 def diagnose(e, m, r, obs, pred):
     """(pullback kind, what) for a value mismatch: which textbook mistake reproduces the observation."""
+    if not row_major(e) and obs == push(as_written(e), m, r):
+        return "symmetric", "declaration-order"  # the blocks follow the order of the dictionary's entries, not its keys
     k = next(i for i in range(len(pred)) if obs[i] != pred[i])
     leaf, ref0, phys0, chain = locate(e, m, k)
     n = prod(phys_shape(leaf, m))
@@ -478,7 +522,8 @@ def show(e):
         return f"{k}{tuple(e['refshape'])}"
     if k == "mixed":
         return "mixed[" + ", ".join(show(s) for s in e["subs"]) + "]"
-    return "sym" + str(e["symmetry"]).replace(" ", "") + "[" + ", ".join(show(s) for s in e["subs"]) + "]"
+    decl = ",".join("(" + ",".join(str(i - 1) for i in d["comp"]) + "):" + str(d["sub"] - 1) for d in e["symmetry"])
+    return "sym{" + decl + "}[" + ", ".join(show(s) for s in e["subs"]) + "]"
 
 
 def check_transcription(mdoc, pair):
@@ -541,14 +586,21 @@ def parse_tlc(res, sel):
 # seeded random element trees (thorough)
 # ------------------------------------------------------------------------------------------------
 
+# (block shape, sub-element number of every block component in row-major order)
 SYM_PATTERNS = [
-    [[1, 2], [2, 3]],
-    [[1, 3], [3, 2]],
-    [[1, 2, 3], [2, 4, 5], [3, 5, 6]],
-    [[1, 6, 5], [6, 2, 4], [5, 4, 3]],
-    [[1, 2], [3, 4]],  # no symmetry at all: a plain 2 x 2 tensor of sub-elements
-    [[1, 2], [1, 2]],  # a non-symmetric identification
-    [[1, 1], [1, 1]],
+    ([2, 2], [1, 2, 2, 3]),
+    ([2, 2], [1, 3, 3, 2]),
+    ([3, 3], [1, 2, 3, 2, 4, 5, 3, 5, 6]),
+    ([3, 3], [1, 6, 5, 6, 2, 4, 5, 4, 3]),
+    ([2, 2], [1, 2, 3, 4]),  # no symmetry at all: a plain 2 x 2 tensor of sub-elements
+    ([2, 2], [1, 2, 1, 2]),  # a non-symmetric identification
+    ([2, 2], [1, 1, 1, 1]),
+    ([2, 3], [1, 2, 1, 3, 2, 3]),  # rectangular
+    ([3, 2], [1, 2, 3, 1, 2, 3]),
+    ([3], [1, 2, 1]),  # a vector of sub-elements
+    ([4], [2, 1, 1, 3]),
+    ([2, 2, 2], [1, 2, 2, 3, 2, 3, 3, 4]),  # rank 3, fully symmetric
+    ([1, 2], [1, 2]),
 ]
 
 
@@ -556,17 +608,24 @@ def mk_mixed(subs):
     return {"kind": "mixed", "refshape": [sum(ref_size(s) for s in subs)], "subs": subs, "symmetry": []}
 
 
-def mk_sym(sm, subs):
-    return {"kind": "symmetric", "refshape": [sum(ref_size(s) for s in subs)], "subs": subs, "symmetry": sm}
+def mk_sym(tab, order, subs):
+    """Symmetric element with the numbering tab whose dictionary is written in the given order (a permutation of
+    the row-major positions, 0-based)."""
+    bs, num = tab
+    g = grid(bs)
+    return {"kind": "symmetric", "refshape": [sum(ref_size(s) for s in subs)], "subs": subs, "symmetry": [{"comp": g[k], "sub": num[k]} for k in order]}
 
 
 def random_element(rng, m, leaves, maxdepth):
     def sym():
-        sm = rng.choice(SYM_PATTERNS)
-        nsub = max(x for r in sm for x in r)
+        tab = rng.choice(SYM_PATTERNS)
+        nsub = max(tab[1])
+        order = list(range(len(tab[1])))
+        if rng.random() < 0.75:  # the dictionary is written in an arbitrary order
+            rng.shuffle(order)
         a = rng.choice([l for l in leaves if len(l["refshape"]) <= 2])
         cands = [l for l in leaves if l["refshape"] == a["refshape"] and phys_shape(l, m) == phys_shape(a, m)]
-        return mk_sym(sm, [a] + [rng.choice(cands) for _ in range(nsub - 1)])
+        return mk_sym(tab, order, [a] + [rng.choice(cands) for _ in range(nsub - 1)])
 
     def mixed(d):
         subs = []
@@ -604,16 +663,18 @@ def run(ctx, args):
     ctx.rule = (
         "TLC enumerates every (affine cell map, element) of Pullback.tla's universe: maps = generic 2D (det>0, det<0, parallelogram), 3D (det>0; thorough det<0), "
         "triangle immersed in 3D, interval in 2D/3D, interval with det<0; elements = all leaf pullback kinds x legal scalar/vector/tensor/blocked reference shapes, "
-        "mixed pairs/triples, symmetric 2x2/3x3 (two numberings, diagonal/off-diagonal sub-element kinds), depth-2 nestings of mixed and symmetric; "
+        "mixed pairs/triples, symmetric elements declared by a symmetry dictionary = ordered list of (block component, sub-element) entries: 2x2/3x3 (two numberings, "
+        "diagonal/off-diagonal sub-element kinds) written in row-major order, EVERY one of the 24 ways of writing a 2x2 dictionary, column-major / reversed / diagonal-first / "
+        "upper-triangle-first 3x3 dictionaries, rectangular 2x3, rank-1 and rank-3 blocks; depth-2 nestings of mixed and symmetric (one with a non-row-major dictionary); "
         "each pair is replayed on real ufl (Coefficient, Argument, direct pullback.apply, f('+'), inner(f,v)*dx) and every physical component compared exactly; "
-        "thorough adds seeded random element trees (depth <= 3, arbitrary symmetry maps) predicted by the validated transcription. "
+        "thorough adds seeded random element trees (depth <= 3, arbitrary symmetry maps of block rank 1-3 written in a random order) predicted by the validated transcription. "
         "distinct non-trivial = distinct (map, element) whose element is not a bare identity leaf"
     )
     ctx.cov["exhaustive"] = True
     ctx.assume("J, K, detJ stay geometric terminals after apply_function_pullbacks and are bound to the spec's map: K = Moore-Penrose inverse of J, detJ = signed determinant (square) / positive pseudo-determinant sqrt(det(J^T J)) (immersed), as geometry.py documents; cell orientation is not applied by pullback.py and not modelled")
     ctx.assume("affine cell maps: the push-forward is a pointwise linear map, checked at one point with two generic reference-value vectors (distinct primes; reversed with alternating signs)")
     ctx.assume("leaf elements are declared through the harness's FiniteElement (ufl ships only the abstract interface); MixedElement takes IdentityPullback when all sub-elements have IdentityPullback, as the repository's test utilities do")
-    ctx.assume("only combinations ufl accepts: vector Piola kinds need reference rank >= 1, tensor Piola kinds rank >= 2 with trailing dimensions tdim (a Piola map of a scalar is undefined and pullback.apply fails to unpack indices); symmetric sub-elements have equal reference shape (SymmetricPullback raises otherwise) and equal physical shape; symmetry maps are onto the sub-elements")
+    ctx.assume("only combinations ufl accepts: vector Piola kinds need reference rank >= 1, tensor Piola kinds rank >= 2 with trailing dimensions tdim (a Piola map of a scalar is undefined and pullback.apply fails to unpack indices); symmetric sub-elements have equal reference shape (SymmetricPullback raises otherwise) and equal physical shape; symmetry dictionaries declare every component of the block shape spanned by their keys exactly once (any key order, any block rank >= 1) and are onto the sub-elements")
     ctx.assume("real-valued reference values; single-domain meshes (no MeshSequence)")
     ctx.assume("vf/sem.py evaluates the result DAG from the mathematical definition of each node type; TLC + CQ.tla rationals; the textbook formulas stated in Pullback.tla")
 
@@ -690,6 +751,10 @@ def run(ctx, args):
             ctx.count("random_pairs")
         e = pair["elem"]
         ctx.count("pairs")
+        if not row_major(e):
+            ctx.count("pairs_dict_not_row_major")
+            if push(as_written(e), Map(mdoc), ref_values(ref_size(e))) != [Fraction(*x) for x in pair["phys"]]:
+                ctx.count("pairs_dict_order_observable")  # reading the entries positionally would give another table
         ctx.count(f"pairs_depth{min(depth(e), 3)}")
         ctx.count(f"pairs_map_{mdoc['kind']}")
         kinds_seen |= leaf_kinds(e)
@@ -703,6 +768,8 @@ def run(ctx, args):
     missing = set(LEAF + ("mixed", "symmetric")) - kinds_seen
     if missing:
         raise MachineryError(f"vacuous: pullback kinds never exercised: {sorted(missing)}")
+    if ctx.cov.get("pairs_dict_order_observable", 0) < (100 if quick else 1000):
+        raise MachineryError(f"vacuous: only {ctx.cov.get('pairs_dict_order_observable', 0)} pairs whose symmetry dictionary order could be observed")
     need = 300 if quick else 20000
     if len(items) < need:
         raise MachineryError(f"only {len(items)} pairs compared (need {need})")
@@ -739,6 +806,7 @@ def selftest(ctx):
     sel = [p for p in pairs if p["elem"]["kind"] in LEAF]
     rest = [p for p in pairs if p["elem"]["kind"] not in LEAF]
     sel += rest[:: max(1, len(rest) // 240)]
+    sel += [p for p in rest if p["elem"]["kind"] == "symmetric" and not row_major(p["elem"]) and p not in sel][::3]
     print(f"  selftest universe: {len(sel)} of {len(pairs)} quick pairs on {sorted(maps)}", flush=True)
 
     def fps(ps, patch=None):
@@ -833,6 +901,22 @@ def selftest(ctx):
         dom = extract_unique_domain(expr)
         return as_tensor(np.asarray(g_components).reshape(self.physical_value_shape(self._element, dom)))
 
+    def sym_entry_order(self, expr, domain=None):
+        import numpy as np
+
+        rflat = [expr[idx] for idx in np.ndindex(expr.ufl_shape)]
+        offsets = [0]
+        for subelem in self._element.sub_elements:
+            offsets.append(offsets[-1] + subelem.reference_value_size)
+        g_components = []
+        for i in self._symmetry.values():  # the mutation: the blocks in the order the dictionary was written
+            subelem = self._element.sub_elements[i]
+            rsub = as_tensor(np.asarray(rflat[offsets[i] : offsets[i + 1]]).reshape(subelem.reference_value_shape))
+            rmapped = subelem.pullback.apply(rsub)
+            g_components.extend(rmapped[idx] for idx in np.ndindex(rmapped.ufl_shape))
+        dom = extract_unique_domain(expr)
+        return as_tensor(np.asarray(g_components).reshape(self.physical_value_shape(self._element, dom)))
+
     def contra_shape(self, element, domain):
         return element.reference_value_shape
 
@@ -844,6 +928,7 @@ def selftest(ctx):
         ("CovariantContravariantPiola uses J[n, j]", [(P.CovariantContravariantPiola, "apply", covcontra_transposed)], "C08:covcontra:transposed-J:square"),
         ("MixedPullback advances by the physical size", [(P.MixedPullback, "apply", mixed_physical_offsets)], "C08:mixed:mixed-offset:immersed"),
         ("SymmetricPullback reads sub-element 0 for every block", [(P.SymmetricPullback, "apply", sym_transposed_blocks)], "C08:symmetric:symmetric-offset:square"),
+        ("SymmetricPullback takes the blocks in the order of the dictionary's entries", [(P.SymmetricPullback, "apply", sym_entry_order)], "C08:symmetric:declaration-order:negdet"),
         ("ContravariantPiola.physical_value_shape returns the reference shape", [(P.ContravariantPiola, "physical_value_shape", contra_shape)], "C08:contravariant:value-shape:immersed"),
     ]
     failed = []
